@@ -1,8 +1,8 @@
 (* Properties/C17.v — DNS records and names decode as a reference decoder;
    merges are monotone.  Only statements, each closed by [exact] of a lemma
    proved in Proofs/DNS*.v. *)
-From PV Require Import Base.Prelude Base.Slice Model.DNS Model.DNSMerge Model.DNSRecords Model.DNSNbns
-     Spec.RFC1035 Proofs.RFC1035 Proofs.DNS Proofs.DNSMerge Proofs.DNSRecords Proofs.DNSSpec Proofs.DNSNbns.
+From PV Require Import Base.Prelude Base.Slice Model.DNS Model.DNSMerge Model.DNSRecords Model.DNSNbns Model.DNSMdns
+     Spec.RFC1035 Proofs.RFC1035 Proofs.DNS Proofs.DNSMerge Proofs.DNSRecords Proofs.DNSSpec Proofs.DNSNbns Proofs.DNSMdns.
 Open Scope N_scope.
 
 (* ------------------------------------------------------------------ *)
@@ -264,6 +264,44 @@ Example C17_nbns_codec_example :
   decodeNBNSName (of_bytes (encodeNBNSName n)) = Ok (33%nat, [78;65;83;233;128]).
 Proof. vm_compute. repeat split; reflexivity. Qed.
 Print Assumptions C17_nbns_codec_example.
+
+(* ------------------------------------------------------------------ *)
+(* mDNS / LLMNR: ProcessMDNS over the message as dnsmessage hands it over (id, QR, question names,
+   resources of the three sections in order, owner in presentation form, typed body). *)
+
+(* a response not answered before: exactly the A / AAAA records yield entries, in message order,
+   each binding the record's address to the owner name without ".local."; (MAC, id) is remembered *)
+Theorem C17_mdns_response_names : forall c mac m,
+  mm_response m = true -> in_cache c mac (mm_id m) = false ->
+  map key (fst (fst (processMDNS c mac m))) = ref_mdns_v4 (mm_resources m) /\
+  map key (snd (fst (processMDNS c mac m))) = ref_mdns_v6 (mm_resources m) /\
+  in_cache (snd (processMDNS c mac m)) mac (mm_id m) = true.
+Proof. exact mdns_response_names. Qed.
+Print Assumptions C17_mdns_response_names.
+
+Theorem C17_mdns_response_cached : forall c mac m,
+  mm_response m = true -> in_cache c mac (mm_id m) = true -> processMDNS c mac m = (([], []), c).
+Proof. exact mdns_response_cached. Qed.
+Print Assumptions C17_mdns_response_cached.
+
+(* a query names the querier: the last question under .local. that is not a _tcp/_udp service name *)
+Theorem C17_mdns_query_name : forall c mac m, mm_response m = false ->
+  snd (processMDNS c mac m) = c /\ snd (fst (processMDNS c mac m)) = [] /\
+  match fst (fst (processMDNS c mac m)) with
+  | [] => ref_query_name (mm_questions m) = []
+  | [e] => in_ip e = [] /\ in_name e = ref_query_name (mm_questions m)
+  | _ => False
+  end.
+Proof. exact mdns_query_name. Qed.
+Print Assumptions C17_mdns_query_name.
+
+Example C17_mdns_example :
+  let m := mkMsg 7 true [] [mkRes [109;121;104;111;115;116;46;108;111;99;97;108;46] (MB_A [192;168;0;7]);
+                             mkRes [110;97;115;46;108;97;110;46] (MB_AAAA (repeat 1 16))] in
+  map key (fst (fst (processMDNS [] [2;0;0;0;0;1] m))) = [([192;168;0;7], [109;121;104;111;115;116])] /\
+  map key (snd (fst (processMDNS [] [2;0;0;0;0;1] m))) = [(repeat 1 16, [110;97;115;46;108;97;110;46])].
+Proof. exact mdns_example. Qed.
+Print Assumptions C17_mdns_example.
 
 (* ------------------------------------------------------------------ *)
 (* NameEntry.Merge: the learned attributes are Name, Model, OS, Manufacturer
